@@ -32,6 +32,8 @@ func runC03(r *Report, p *Program) {
 	dm := p.DirectiveMap()
 	c03R3(h, dm)
 	c03R4(h)
+	c03R5(h)
+	c03R6(h)
 }
 
 func nextInvokes(fn *ssa.Function) []ssa.Instruction {
